@@ -24,6 +24,11 @@ def run(ctx, prop, n=None):
             ctx.design("GroupHandover", "GroupHandover_%s.cfg" % proto, timeout=900, tag="handover_" + proto)
         m = ctx.tlc("GroupHandover", "GroupHandover_mut.cfg", workers=4, timeout=600, tag="handover_mutant", allow_fail=True)
         ctx.notes["design_mutant_ack_before_revoke_ends_rejected"] = bool(m.violated)
+    if prop == "C08":
+        # autocommit design model: head-only commits (tick, default revoke, commits still travelling at a hand-over, killed members)
+        ctx.design("AutoCommit", "AutoCommit.cfg", timeout=900, tag="autocommit")
+        m = ctx.tlc("AutoCommit", "AutoCommit_mut.cfg", workers=4, timeout=600, tag="autocommit_mutant", allow_fail=True)
+        ctx.notes["design_mutant_commit_dirty_rejected"] = bool(m.violated)
     if prop == "C09":
         # commit chaining design model: the code's policy (wait for the previous commit) keeps arrival order and last-wins;
         # the two mutants (cancel the previous commit / do not chain) and the user-cancellation boundary are rejected by TLC
